@@ -537,7 +537,7 @@ def main() -> int:
                 report(run, _key(case, f"recorded {clause}"),
                               f"TLC rejects clause {clause} on the recorded real results {json.dumps(rec)[:300]}",
                               {"kind": "pair" if case["n"] == 2 else "triple", "model": case, "record": rec, "clause": clause})
-        selftest(run, sc, records)
+        selftest(run, sc, records, failing)
     run.assumptions += [
         "components are SymPy integers on the grid; the functions are polynomial (rational for project/reject/unit) of "
         "degree <= 2 per component, so agreement on 5 points per variable extends to all values; the symbolic results "
@@ -549,12 +549,14 @@ def main() -> int:
     return run.finish(exhaustive=True)
 
 
-def selftest(run, sc, records):
+def selftest(run, sc, records, failing):
     """Binding of the trace direction: a record with one corrupted real result must be rejected by TLC."""
     import copy
-    good = next((r for r, _ in records if r["k"] == "pair" and r["cr_ab"] != [0, 0, 0] and r["hp"]), None)
+    good = next((r for r, _ in records if r["k"] == "pair" and r["cr_ab"] != [0, 0, 0] and r["hp"] and r["id"] not in failing), None)
     if good is None:
+        run.coverage["trace_selftest"] = "skipped: no intact record"
         return
+    good = copy.deepcopy(good)
     bad1, bad2 = copy.deepcopy(good), copy.deepcopy(good)
     bad1["cr_ab"][0] += 1
     bad2["rj"][0] = rat(Fraction(*bad2["rj"][0]) + 1)
